@@ -621,10 +621,10 @@ class FieldValueComponentUrl(FieldValueComponentKeyValueBase):
     def _value_validate(self, _, value):
         self.value = convert_url()(value)
 
-        if isinstance(self.value, urllib3.util.Url):
+        if isinstance(self.value, urllib3.util.Url) and self.value.url:
             return
 
-        raise InvalidValue(self.value, type(self), 'value')
+        raise InvalidValue(value, type(self), 'value')
 
     @classmethod
     @abc.abstractmethod
@@ -637,7 +637,9 @@ class FieldValueComponentUrl(FieldValueComponentKeyValueBase):
 
     def _get_value_as_simple_type(self):
         if self.value.scheme == 'mailto':
-            value = 'mailto:' + self.value.path[1:]
+            value = 'mailto:' + (self.value.path or '/')[1:]
+            if self.value.query is not None:
+                value += '?' + self.value.query
         else:
             value = str(self.value)
 
